@@ -194,6 +194,10 @@ def generate(rng, tier):
         for t, v in (("3 bar gauge", 4.0), ("7 bar gauge + 1", 5.0)):
             ops.append({"op": "exec", "lang": "en", "text": t})
             checks.append(("abs", len(ops) - 1, v))
+        # the field stays restricted to that family: a quantity of another family does not fire the rule
+        for t in ("3 km gauge", "2 kb gauge"):
+            ops.append({"op": "exec", "lang": "en", "text": t})
+            checks.append(("val", len(ops) - 1, ["DynamicType", None]))
         return {"ops": ops, "meta": {"kind": "rule-before-family" if rule_first else "family-before-rule", "checks": checks,
                                      "interesting": True, "pair": None}}
     cases.append(gauge(True))
@@ -301,6 +305,11 @@ def spec_check(c, rec, header):
             got = val(lines[0]) if lines and len(lines) == 1 and lines[0] is not None else None
             if got != ("Number", ch[2]):
                 return "probe %r (op %d): expected the number %r, got %r" % (c["ops"][ch[1]]["text"], ch[1], ch[2], got)
+        elif ch[0] == "val":
+            lines = obs[ch[1]].get("lines")
+            got = val(lines[0]) if lines and len(lines) == 1 and lines[0] is not None else None
+            if got is None or list(got) != list(ch[2]):
+                return "probe %r (op %d): expected %r, got %r" % (c["ops"][ch[1]]["text"], ch[1], ch[2], got)
         elif ch[0] == "unit":
             lines = obs[ch[1]].get("lines")
             if not lines or lines[0] is None:
